@@ -135,3 +135,60 @@ def ris_decode(b):
 
 assert ris_encode(B) == list(bytes.fromhex("e2f2ae0a6abc4e71a884a961c500515f58e30b6aa582dd8db6a65945e08d2d76"))
 assert ris_decode(ris_encode(mul(5, B))) is not None
+
+
+# ---- Ed25519 helpers (input construction only; checked against RFC 8032 vectors below) -----------------
+import hashlib
+
+
+def clamp(b):
+    b = bytearray(b)
+    b[0] &= 248
+    b[31] &= 127
+    b[31] |= 64
+    return int.from_bytes(b, "little")
+
+
+def dom2(ph, ctx):
+    return (b"SigEd25519 no Ed25519 collisions" + bytes([1, len(ctx)]) + bytes(ctx)) if ph else b""
+
+
+def expand(seed):
+    h = hashlib.sha512(bytes(seed)).digest()
+    return clamp(h[:32]), h[32:]
+
+
+def public(seed):
+    a, _ = expand(seed)
+    return bytes(compress(mul(a % L, B)))
+
+
+def sign(seed, msg, ph=False, ctx=b""):
+    a, prefix = expand(seed)
+    A = public(seed)
+    m = hashlib.sha512(bytes(msg)).digest() if ph else bytes(msg)
+    r = int.from_bytes(hashlib.sha512(dom2(ph, ctx) + prefix + m).digest(), "little") % L
+    R = bytes(compress(mul(r, B)))
+    k = int.from_bytes(hashlib.sha512(dom2(ph, ctx) + R + A + m).digest(), "little") % L
+    S = (r + k * a) % L
+    return R + S.to_bytes(32, "little")
+
+
+def challenge(R, A, msg, ph=False, ctx=b""):
+    m = hashlib.sha512(bytes(msg)).digest() if ph else bytes(msg)
+    return int.from_bytes(hashlib.sha512(dom2(ph, ctx) + bytes(R) + bytes(A) + m).digest(), "little") % L
+
+
+RFC8032 = [  # (seed, public, message, signature)  RFC 8032 section 7.1 tests 1-3
+    ("9d61b19deffd5a60ba844af492ec2cc44449c5697b326919703bac031cae7f60", "d75a980182b10ab7d54bfed3c964073a0ee172f3daa62325af021a68f707511a", "",
+     "e5564300c360ac729086e2cc806e828a84877f1eb8e5d974d873e065224901555fb8821590a33bacc61e39701cf9b46bd25bf5f0595bbe24655141438e7a100b"),
+    ("4ccd089b28ff96da9db6c346ec114e0f5b8a319f35aba624da8cf6ed4fb8a6fb", "3d4017c3e843895a92b70aa74d1b7ebc9c982ccf2ec4968cc0cd55f12af4660c", "72",
+     "92a009a9f0d4cab8720e820b5f642540a2b27b5416503f8fb3762223ebdb69da085ac1e43e15996e458f3613d0f11d8c387b2eaeb4302aeeb00d291612bb0c00"),
+    ("c5aa8df43f9f837bedb7442f31dcb7b166d38535076f094b85ce3a2e0b4458f7", "fc51cd8e6218a1a38da47ed00230f0580816ed13ba3303ac5deb911548908025", "af82",
+     "6291d657deec24024827e69c3abe01a30ce548a284743a445e3680d7db5ac3ac18ff9b538d16f290ae67f760984dc6594a7c15e9716ed28dc027beceea1ec40a"),
+]
+RFC8032_PH = ("833fe62409237b9d62ec77587520911e9a759cec1d19755b7da901b96dca3d42", "ec172b93ad5e563bf4932c70e1245034c35467ef2efd4d64ebf819683467e2bf",
+              "616263", "98a70222f0b8121aa9d30f813d683f809e462b469c7ff87639499bb94e6dae4131f85042463c2a355a2003d062adf5aaa10b8c61e636062aaad11c2a26083406")
+for _s, _p, _m, _g in RFC8032:
+    assert public(bytes.fromhex(_s)).hex() == _p and sign(bytes.fromhex(_s), bytes.fromhex(_m)).hex() == _g
+assert sign(bytes.fromhex(RFC8032_PH[0]), bytes.fromhex(RFC8032_PH[2]), True, b"").hex() == RFC8032_PH[3]
